@@ -1322,4 +1322,324 @@ theorem perKey {p : Pat} {cfg : Cfg} (hfree : p.allFree = true) (k : String) :
       rw [this]
       simp
 
+/-! ### putting the partitions together -/
+
+/-- partition key of a match: that of its first event -/
+def mkey (p : Pat) (m : Match) : String :=
+  match m.stack.head? with
+  | some en => keyOf p en.ev
+  | none => ""
+
+theorem count_emittedK {p : Pat} {X : List (Event × List Match)}
+    (hX : ∀ x ∈ X, ∀ m ∈ x.2, mkey p m = keyOf p x.1) (a : Match) :
+    List.count a (X.flatMap (·.2)) = List.count a (emittedK p (mkey p a) X) := by
+  induction X with
+  | nil => rfl
+  | cons x xs ih =>
+    have ih' := ih (fun y hy => hX y (List.mem_cons_of_mem _ hy))
+    unfold emittedK at ih' ⊢
+    simp only [List.flatMap_cons, List.count_append, List.filter_cons]
+    by_cases hk : (keyOf p x.1 == mkey p a) = true
+    · simp only [hk, if_true, List.flatMap_cons, List.count_append, ih']
+    · simp only [hk]
+      have : List.count a x.2 = 0 := by
+        apply List.count_eq_zero_of_not_mem
+        intro hmem
+        have := hX x List.mem_cons_self a hmem
+        simp [this] at hk
+      simp [this, ih']
+
+/-- the oracle's candidates, indexed by their start event -/
+def specX (p : Pat) : List Event → List (Event × List Match)
+  | [] => []
+  | e :: es => (e, (Spec.startAtNF p e es).toList) :: specX p es
+
+theorem earliestNF_eq (p : Pat) (evs : List Event) : Spec.earliestNF p evs = (specX p evs).flatMap (·.2) := by
+  induction evs with
+  | nil => rfl
+  | cons e es ih => simp [Spec.earliestNF, specX, ih]
+
+theorem specK_eq (p : Pat) (k : String) (evs : List Event) : specK p k evs = emittedK p k (specX p evs) := by
+  induction evs with
+  | nil => rfl
+  | cons e es ih =>
+    rw [specK_cons, ih]
+    have hx : specX p (e :: es) = (e, (Spec.startAtNF p e es).toList) :: specX p es := rfl
+    rw [hx]
+    unfold emittedK
+    by_cases hk : (keyOf p e == k) = true
+    · simp [hk]
+    · simp [hk]
+
+theorem followNF_head {p : Pat} {key : String} (todo : List Step) (stack : List Entry) (later : List Event) :
+    ∀ m, Spec.followNF p key todo stack later = some m → stack ≠ [] → m.stack.head? = stack.head? := by
+  fun_induction Spec.followNF p key todo stack later with
+  | case1 stack _ => intro m h _; cases h; rfl
+  | case2 => intro m h; cases h
+  | case3 s todo stack g later hneg => intro m h; cases h
+  | case4 s todo stack g later hneg hkm hemp =>
+    intro m h hne
+    cases h
+    cases stack with
+    | nil => exact absurd rfl hne
+    | cons x xs => rfl
+  | case5 s todo stack g later hneg hkm hemp ih =>
+    intro m h hne
+    rw [ih m h (by simp)]
+    cases stack with
+    | nil => exact absurd rfl hne
+    | cons x xs => rfl
+  | case6 s todo stack g later hneg hkm ih =>
+    intro m h hne
+    exact ih m h hne
+
+theorem specX_key {p : Pat} : ∀ (evs : List Event), ∀ x ∈ specX p evs, ∀ m ∈ x.2, mkey p m = keyOf p x.1 := by
+  intro evs
+  induction evs with
+  | nil => intro x hx; cases hx
+  | cons e es ih =>
+    intro x hx m hm
+    unfold specX at hx
+    rcases List.mem_cons.mp hx with hx | hx
+    · subst hx
+      simp only [Option.mem_toList] at hm
+      unfold Spec.startAtNF at hm
+      cases hs : p.steps with
+      | nil => simp [hs] at hm
+      | cons s0 rest =>
+        simp only [hs] at hm
+        split at hm
+        · have := followNF_head rest [⟨e, s0.alias⟩] es m hm (by simp)
+          unfold mkey; rw [this]; rfl
+        · cases hm
+    · exact ih x hx m hm
+
+theorem emitOf_shape {p : Pat} {cfg : Cfg} {e : Event} {r : Run} {m : Match} (hfree : p.allFree = true)
+    (hl : Lite p (keyOf p e) r) (h : emitOf p cfg e r = some m) :
+    ∃ a, m.stack = r.stack ++ [⟨e, a⟩] := by
+  unfold emitOf at h
+  by_cases hinv : r.invalidated = true
+  · simp [hinv] at h
+  · simp only [hinv] at h
+    have hadv := advance_allFree (cfg := cfg) (r := r) (e := e) hfree hl.pos
+    obtain ⟨nxt, hnxt⟩ : ∃ nxt, p.steps[r.pos + 1]? = some nxt := ⟨_, List.getElem?_eq_getElem hl.pos⟩
+    rw [hnxt] at hadv
+    simp only [] at hadv
+    rw [hadv] at h
+    by_cases hm : matchesState nxt e r.caps = true
+    · simp only [hm, if_true] at h
+      by_cases hlast : p.isLast (r.pos + 1) = true
+      · simp [hlast] at h
+        subst h
+        exact ⟨nxt.alias, rfl⟩
+      · simp [hlast] at h
+    · simp [hm] at h
+
+theorem stepEngine_emitted {p : Pat} {cfg : Cfg} {s : Eng} {e : Event} (hfree : p.allFree = true) (hl : LiteEng p s) :
+    ∀ m ∈ (stepEngine p cfg s e).2, mkey p m = keyOf p e ∧ m.lastIdx = e.idx := by
+  rw [stepEngine_eq]
+  simp only []
+  have hpr : ∀ m ∈ (processRuns p cfg e ((s.parts (keyOf p e)).map (markNeg p e)) 0 []).2,
+      mkey p m = keyOf p e ∧ m.lastIdx = e.idx := by
+    intro m hm
+    rw [processRuns_eq_loop2] at hm
+    have := ((loop2_perm p cfg e _ _ _).2.mem_iff).mp hm
+    simp only [List.drop_zero, List.nil_append] at this
+    obtain ⟨r, hr, hem⟩ := List.mem_filterMap.mp this
+    obtain ⟨r0, hr0, rfl⟩ := List.mem_map.mp hr
+    have hlr : Lite p (keyOf p e) (markNeg p e r0) := (hl _ r0 hr0).mark
+    obtain ⟨a, hst⟩ := emitOf_shape hfree hlr hem
+    constructor
+    · unfold mkey
+      rw [hst]
+      cases hs : (markNeg p e r0).stack with
+      | nil => exact absurd hs hlr.ne
+      | cons x xs =>
+        simp only [List.cons_append, List.head?_cons]
+        exact hlr.part x (by rw [hs]; exact List.mem_cons_self)
+    · unfold Match.lastIdx
+      rw [hst]; simp
+  unfold startRun
+  cases hts : tryStart p e with
+  | none => simpa using hpr
+  | some rn =>
+    simp only []
+    by_cases hone : p.oneStep = true
+    · rw [if_pos hone]
+      intro m hm
+      rcases List.mem_append.mp hm with hm | hm
+      · exact hpr m hm
+      · have hmr : m = rn.result := by simpa using hm
+        subst hmr
+        unfold tryStart at hts
+        cases hs : p.steps with
+        | nil => simp [hs] at hts
+        | cons s0 rest =>
+          simp only [hs] at hts
+          split at hts
+          · cases hts
+            simp [mkey, Match.lastIdx, Run.result, Run.push]
+          · cases hts
+    · rw [if_neg hone]
+      split
+      · exact hpr
+      · exact hpr
+
+theorem runFrom_emitted {p : Pat} {cfg : Cfg} (hfree : p.allFree = true) :
+    ∀ (later : List Event) (s : Eng), LiteEng p s →
+    ∀ x ∈ (runFrom p cfg s later).2, ∀ m ∈ x.2, mkey p m = keyOf p x.1 ∧ m.lastIdx = x.1.idx := by
+  intro later
+  induction later with
+  | nil => intro s _ x hx; simp [runFrom] at hx
+  | cons e es ih =>
+    intro s hl x hx m hm
+    unfold runFrom at hx
+    simp only [] at hx
+    rcases List.mem_cons.mp hx with hx | hx
+    · subst hx
+      exact stepEngine_emitted hfree hl m hm
+    · exact ih _ (hl.step hfree) x hx m hm
+
+theorem LiteEng_init (p : Pat) : LiteEng p Eng.init := by
+  intro k r hr; simp [Eng.init] at hr
+
+/-- **refinement, all partitions**: on `all`-free patterns without refused runs the engine emits
+exactly the candidates of the negation-first scan. -/
+theorem matches_perm_earliestNF {p : Pat} {cfg : Cfg} {evs : List Event} (hfree : p.allFree = true)
+    (hd : (runAll p cfg evs).1.dropped = false) : (matchesOf p cfg evs).Perm (Spec.earliestNF p evs) := by
+  rw [List.perm_iff_count]
+  intro a
+  have hX := fun x hx m hm => (runFrom_emitted (cfg := cfg) hfree evs Eng.init (LiteEng_init p) x hx m hm).1
+  have h1 : matchesOf p cfg evs = ((runAll p cfg evs).2).flatMap (·.2) := by
+    unfold matchesOf; rw [List.flatMap_def]
+  rw [h1, earliestNF_eq]
+  unfold runAll at hd ⊢
+  rw [count_emittedK hX a, count_emittedK (specX_key evs) a, ← specK_eq]
+  have := perKey (cfg := cfg) hfree (mkey p a) evs Eng.init (LiteEng_init p) hd
+  simpa [Eng.init] using this.count_eq a
+
+/-! ### the text's oracle (`follow`) against the negation-first scan (`followNF`) -/
+
+theorem negAtCompletion_snoc (p : Pat) (stack : List Entry) (g : Event) (a : Option String) (c : Caps) :
+    negAtCompletion p ⟨stack ++ [⟨g, a⟩], c⟩ = negHit p g (capsOf stack) := by
+  unfold negAtCompletion
+  simp
+
+theorem followNF_eq_follow {p : Pat} {key : String} (todo : List Step) (stack : List Entry) (later : List Event) :
+    (∀ m, Spec.follow p key todo stack later = some m → negAtCompletion p m = false) →
+    Spec.followNF p key todo stack later = Spec.follow p key todo stack later := by
+  fun_induction Spec.follow p key todo stack later with
+  | case1 stack _ => intro _; rw [Spec.followNF]
+  | case2 => intro _; rw [Spec.followNF]
+  | case3 s todo stack g later hkm hemp =>
+    intro h
+    have := h _ rfl
+    rw [negAtCompletion_snoc] at this
+    rw [Spec.followNF]
+    simp [this, hkm, hemp]
+  | case4 s todo stack g later hkm hemp hneg =>
+    intro _
+    rw [Spec.followNF]; simp [hneg]
+  | case5 s todo stack g later hkm hemp hneg ih =>
+    intro h
+    rw [Spec.followNF]
+    simp only [hneg, hkm, hemp]
+    simpa using ih h
+  | case6 s todo stack g later hkm hneg =>
+    intro _
+    rw [Spec.followNF]; simp [hneg]
+  | case7 s todo stack g later hkm hneg ih =>
+    intro h
+    rw [Spec.followNF]
+    simp only [hneg, hkm]
+    simpa using ih h
+
+theorem earliestNF_eq_earliest {p : Pat} : ∀ (evs : List Event), noNegAtCompletion p evs = true →
+    Spec.earliestNF p evs = Spec.earliest p evs := by
+  intro evs
+  induction evs with
+  | nil => intro _; rfl
+  | cons e es ih =>
+    intro h
+    unfold noNegAtCompletion at h
+    rw [Spec.earliest, List.all_append, Bool.and_eq_true] at h
+    rw [Spec.earliestNF, Spec.earliest, ih (by unfold noNegAtCompletion; exact h.2)]
+    congr 1
+    congr 1
+    unfold Spec.startAtNF Spec.startAt
+    cases hs : p.steps with
+    | nil => rfl
+    | cons s0 rest =>
+      simp only []
+      split
+      · apply followNF_eq_follow
+        intro m hm
+        have h1 := h.1
+        unfold Spec.startAt at h1
+        simp only [hs] at h1
+        rename_i hmatch
+        simp only [hmatch, if_true, hm, Option.toList_some, List.all_cons, List.all_nil, Bool.and_true] at h1
+        simpa using h1
+      · rfl
+
+/-! ### a simple sufficient condition for "backpressure never refuses a run" -/
+
+theorem processRuns_length (p : Pat) (cfg : Cfg) (e : Event) (runs : List Run) :
+    (processRuns p cfg e runs 0 []).1.length ≤ runs.length := by
+  rw [processRuns_eq_loop2]
+  have := (loop2_perm p cfg e [] runs []).1.length_eq
+  simp only [List.take_zero, List.drop_zero, List.nil_append] at this ⊢
+  rw [this]
+  exact List.length_filterMap_le _ _
+
+theorem noDrop_from {p : Pat} {cfg : Cfg} : ∀ (evs : List Event) (s : Eng) (n : Nat),
+    (∀ k, (s.parts k).length ≤ n) → s.dropped = false → n + evs.length ≤ cfg.maxRuns →
+    (runFrom p cfg s evs).1.dropped = false := by
+  intro evs
+  induction evs with
+  | nil => intro s n _ hd _; exact hd
+  | cons e es ih =>
+    intro s n hlen hd hn
+    unfold runFrom
+    simp only []
+    have hpr := processRuns_length p cfg e ((s.parts (keyOf p e)).map (markNeg p e))
+    simp only [List.length_map] at hpr
+    have hk := hlen (keyOf p e)
+    simp only [List.length_cons] at hn
+    apply ih _ (n + 1)
+    · intro k
+      rw [stepEngine_eq]
+      simp only []
+      by_cases hke : k = keyOf p e
+      · rw [if_pos hke]
+        unfold startRun
+        split
+        · split
+          · simp only []; omega
+          · split
+            · simp only [List.length_append, List.length_cons, List.length_nil]; omega
+            · simp only []; omega
+        · simp only []; omega
+      · rw [if_neg hke]
+        have := hlen k
+        simp only [List.length_map]; omega
+    · rw [stepEngine_eq]
+      simp only []
+      unfold startRun
+      split
+      · split
+        · exact hd
+        · split
+          · exact hd
+          · rename_i hnot
+            exact absurd (by omega) hnot
+      · exact hd
+    · omega
+
+/-- a stream no longer than `max_runs` never meets backpressure -/
+theorem noDrop_of_length {p : Pat} {cfg : Cfg} {evs : List Event} (h : evs.length ≤ cfg.maxRuns) :
+    (runAll p cfg evs).1.dropped = false := by
+  unfold runAll
+  exact noDrop_from evs Eng.init 0 (by intro k; simp [Eng.init]) rfl (by omega)
+
 end Varpulis.Sase
